@@ -30,6 +30,9 @@ def check(ck: Checker) -> None:
     from . import round8 as _r8
 
     _r8.db_writer_overwrites(ck, "C20.keys")
+    from . import round9 as _r9
+
+    _r9.listing_entry_parsed_per_path(ck, "C20.listing")
     _trie(ck)
     from .C17 import _loadonce
 
